@@ -11,9 +11,11 @@ import Fdo.Drv.Tunnel
 import Fdo.Drv.Handover
 import Fdo.Drv.Chunk
 import Fdo.Drv.Rv
+import Fdo.Drv.Server
 import Fdo.Drv.Fsim
 import Fdo.Drv.Store
 import Fdo.Drv.Endpoint
+import Fdo.Drv.Rounds
 /-
 Line-protocol driver: one operation per input line, one reply per output line.
 Imports model modules only (no proofs, no Mathlib) so that it links as a `lean_exe`.
@@ -35,9 +37,11 @@ def handlers : List (String × (String → List String → Option String)) := [
   ("handover.", Drv.Handover.handle),
   ("chunk.", Drv.Chunk.handle),
   ("rv.", Drv.Rv.handle),
+  ("server.", Drv.Server.handle),
   ("fsim.", Drv.Fsim.handle),
   ("store.", Drv.Store.handle),
   ("c10.", Drv.Endpoint.handle),
+  ("rounds.", Drv.Rounds.handle),
 ]
 
 def dispatch (line : String) : String :=
